@@ -620,7 +620,14 @@ class StmtMixin:
             if isinstance(ref, VRef):
                 cell = self.path.heap[ref.addr]
                 if cell.val is not None:
-                    cell.val = self.havoc_value(cell.val, "loop")
+                    kind = fr.local_kind(e.id) if isinstance(e, ast.Name) else None
+                    if kind is not None and (isinstance(cell.val, VConstDict) or (isinstance(cell.val, VList) and cell.val.items is not None)):
+                        fv = vals.fresh(kind, self.path.name(e.id))
+                        for f_ in vals.wellformed(fv):
+                            self.path.assume(f_)
+                        cell.val = fv
+                    else:
+                        cell.val = self.havoc_value(cell.val, "loop")
                 elif isinstance(e, ast.Attribute):
                     pass
             if isinstance(e, ast.Attribute):
